@@ -142,3 +142,31 @@ def fn_call_char(ex, st, fr, name, args, dty):
         tup = ex.load(st, tup.cell, tup.path)
     a = tup.fields[0] if isinstance(tup, VAgg) and tup.fields else tup
     return call_fn_value(ex, st, fr, fv, [a])
+
+
+@model(r'<(std::str::|core::str::)?(Chars|CharIndices)<.*> as (\w+::)*Iterator>::(nth|skip|advance_by)$')
+def iter_nth(ex, st, fr, name, args, dty):
+    ref, it = _deref_iter(ex, st, args[0])
+    if it is None or it.ty != 'AsciiIter' or not isinstance(args[1], VInt) or not name.strip().endswith('nth'):
+        return None
+    n = ex.concrete(args[1].e)
+    if n is None or n > 16:
+        return None
+    data = ex.load(st, it.fields[0].cell, it.fields[0].path)
+    pos = it.fields[1].e
+    out = []
+    has = z3.ULT(pos + n, data.len)
+    if ex.feasible(st.pc + [has]):
+        s2 = st.fork()
+        s2.pc.append(has)
+        at = z3.simplify(pos + n)
+        ch = VInt(z3.ZeroExt(24, z3.Select(data.arr, data.off + at)), 32)
+        ex.store(s2, ref.cell, ref.path, VAgg(it.ty, it.variant, [it.fields[0], VInt(z3.simplify(at + 1), 64)]))
+        item = VAgg('tuple', None, [VInt(at, 64), ch]) if it.variant == 'indices' else ch
+        out.append((s2, mk('Option', 'Some', item), 'ok', ''))
+    if ex.feasible(st.pc + [z3.Not(has)]):
+        s2 = st.fork()
+        s2.pc.append(z3.Not(has))
+        ex.store(s2, ref.cell, ref.path, VAgg(it.ty, it.variant, [it.fields[0], VInt(data.len, 64)]))
+        out.append((s2, mk('Option', 'None'), 'ok', ''))
+    return out
